@@ -97,6 +97,7 @@ class Program:
         self.oracle = []
         self.regions = []  # (base, size, writable, bytes)
         self.features = set()
+        self.forward_order = False   # print main first, callees after it (declared by `forward`)
 
     def add_item(self, it):
         name = it[1] if it[0] != 'func' else it[1].name
@@ -121,6 +122,8 @@ class Program:
         if isinstance(o, Lab): return 'L%d' % o.n
         if isinstance(o, Ref): return o.name
         if isinstance(o, Mem):
+            if o.ty.startswith(('blk', 'rblk')):
+                return '%s(%s)' % (o.ty, o.base)
             s = '%s:' % o.ty
             if o.base is None and o.index is None:
                 return s + str(o.disp)
@@ -134,7 +137,16 @@ class Program:
 
     def text(self):
         out = ['m: module']
-        for it in self.items:
+        items = self.items
+        if self.forward_order:
+            funcs = [it for it in items if it[0] == 'func']
+            items = [it for it in items if it[0] != 'func']
+            out_fw = 'forward ' + ', '.join(f[1].name for f in funcs if f[1].name != 'main')
+            items = items + ([('forwarddecl', out_fw)] if len(funcs) > 1 else []) + funcs[::-1]
+        for it in items:
+            if it[0] == 'forwarddecl':
+                out.append(it[1])
+                continue
             if it[0] == 'proto':
                 _, name, res, args = it
                 ops = list(res) + ['%s:a%d' % (t, i) if not t.startswith(('blk', 'rblk')) else '%s(a%d)' % (t, i)
@@ -232,8 +244,8 @@ def fmt_f32(bits):
 
 # ---- function generator ----------------------------------------------------------------------------
 class PtrInfo:
-    def __init__(self, reg, size, writable):
-        self.reg, self.size, self.writable = reg, size, writable
+    def __init__(self, reg, size, writable, init=True):
+        self.reg, self.size, self.writable, self.init = reg, size, writable, init
 
 
 class FG:
@@ -264,6 +276,7 @@ class FG:
         self.f.body.append(Insn('label', [l]))
 
     def new_local(self, cls, ty='i64'):
+        ty = {'f': 'f', 'd': 'd'}.get(ty, ty)
         self.ntmp += 1
         n = '%s%d' % (cls, self.ntmp)
         self.f.locals.append((ty, n))
@@ -347,6 +360,96 @@ class FG:
             m = self.mem_operand(self.rng.choice(NARROW), write=True)
             if m is not None: return m
         return self.W_()
+
+    # -- floating point
+    FCONST = [0.0, -0.0, 1.0, -1.0, 0.5, 2.0, 3.0, 10.0, 0.1, 1.5, -2.5, 100.0, 1e10, 1e-10, 16777216.0, 16777217.0,
+              4294967296.0, 9007199254740993.0, 1e300, 1e-300, 3.4e38, 1e-40, 123456.789]
+
+    def fimm(self, prec):
+        x = self.rng.choice(self.FCONST)
+        if prec == 'f':
+            try:
+                return FImm(f32bits(x))
+            except OverflowError:
+                return FImm(f32bits(1.0))
+        return DImm(f64bits(x))
+
+    def FR_(self, prec): return R(self.rng.choice(self.FR if prec == 'f' else self.DR))
+
+    def fsrc(self, prec, allow_mem=True):
+        k = self.rng.random()
+        if k < 0.6: return self.FR_(prec)
+        if k < 0.8: return self.fimm(prec)
+        if allow_mem:
+            m = self.mem_operand(prec)
+            if m is not None:
+                self.p.features.add('load:' + prec)
+                return m
+        return self.FR_(prec)
+
+    def fdst(self, prec):
+        if self.rng.random() < 0.1:
+            m = self.mem_operand(prec, write=True)
+            if m is not None:
+                self.p.features.add('store:' + prec)
+                return m
+        return self.FR_(prec)
+
+    def g_farith(self):
+        r = self.rng
+        prec = r.choice(['f', 'd'])
+        op = r.choice(['add', 'sub', 'mul', 'div', 'add', 'mul', 'neg'])
+        if op == 'neg':
+            self.emit(prec + 'neg', self.fdst(prec), self.fsrc(prec))
+        else:
+            a, b = self.fsrc(prec), self.fsrc(prec)
+            self.emit(prec + op, self.fdst(prec), a, b)
+        self.p.features.add('fp:' + prec + op)
+
+    def g_fcmp(self):
+        r = self.rng
+        prec = r.choice(['f', 'd'])
+        op = prec + r.choice(['eq', 'ne', 'lt', 'le', 'gt', 'ge'])
+        a, b = self.fsrc(prec), self.fsrc(prec)
+        self.emit(op, self.dst64(), a, b)
+        self.p.features.add('fp:cmp')
+
+    def g_fconv(self):
+        r = self.rng
+        k = r.choice(['i2f', 'i2d', 'ui2f', 'ui2d', 'f2d', 'd2f', 'f2i', 'd2i'])
+        if k in ('i2f', 'ui2f'): self.emit(k, self.fdst('f'), self.src64())
+        elif k in ('i2d', 'ui2d'): self.emit(k, self.fdst('d'), self.src64())
+        elif k == 'f2d': self.emit(k, self.fdst('d'), self.fsrc('f'))
+        elif k == 'd2f': self.emit(k, self.fdst('f'), self.fsrc('d'))
+        else:
+            # FP -> int only of a value known to be small: i2x (x & mask) [+ c] [* c]
+            prec = k[0]
+            t = self.new_local('cv')
+            self.emit('and', R(t), self.X_(), Imm(r.choice([0xff, 0xffff, 0xfffff])))
+            if r.random() < 0.3: self.emit('sub', R(t), R(t), Imm(r.choice([1, 100, 70000])))
+            ft = self.new_local('cf', prec)
+            self.emit('i2' + prec, R(ft), R(t))
+            if r.random() < 0.5:
+                c = r.choice([0.5, 1.5, -2.25, 3.0, 1000.0, 0.001])
+                self.emit(prec + r.choice(['mul', 'add', 'sub', 'div']), R(ft), R(ft),
+                          FImm(f32bits(c)) if prec == 'f' else DImm(f64bits(c)))
+            self.emit(k, self.dst64(), R(ft))
+        self.p.features.add('fp:' + k)
+
+    def g_fmov(self):
+        r = self.rng
+        prec = r.choice(['f', 'd'])
+        k = r.random()
+        if k < 0.35:
+            m = self.mem_operand(prec)
+            if m is not None:
+                self.emit(prec + 'mov', self.FR_(prec), m); self.p.features.add('load:' + prec); return
+        if k < 0.6:
+            m = self.mem_operand(prec, write=True)
+            if m is not None:
+                self.emit(prec + 'mov', m, self.FR_(prec) if r.random() < 0.8 else self.fimm(prec))
+                self.p.features.add('store:' + prec); return
+        self.emit(prec + 'mov', self.FR_(prec), self.fsrc(prec, allow_mem=False))
 
     # -- instruction kinds
     def g_alu64(self):
@@ -519,17 +622,24 @@ class FG:
             return self.src64(allow_mem=r.random() < 0.3)
         if ty in NARROW:
             return self.src32(allow_mem=r.random() < 0.3)
+        if ty in ('f', 'd'):
+            return self.fsrc(ty, allow_mem=r.random() < 0.3)
         raise ValueError(ty)
 
     def res_dsts(self, tys):
         # results are extended to 64 bits at the boundary; destinations pairwise distinct (the order
         # in which several results are written is not specified)
-        regs = self.rng.sample(self.X, len(tys)) if len(tys) <= len(self.X) else None
-        return [R(x) for x in regs]
+        ints = self.rng.sample(self.X, len(tys))
+        fs = self.rng.sample(self.FR, min(len(tys), len(self.FR)))
+        ds = self.rng.sample(self.DR, min(len(tys), len(self.DR)))
+        out = []
+        for i, t in enumerate(tys):
+            out.append(R(fs[i % len(fs)]) if t == 'f' else R(ds[i % len(ds)]) if t == 'd' else R(ints[i]))
+        return out
 
     def g_call_ext(self):
         r = self.rng
-        cands = [e for e in EXTERNALS if all(t in INT_TYPES for t in e[2] + e[3])]
+        cands = EXTERNALS if self.opts.get('fp', True) else [e for e in EXTERNALS if all(t in INT_TYPES for t in e[2] + e[3])]
         eid, name, res, args = r.choice(cands)
         ops = [Ref('p_' + name), Ref(name)] + self.res_dsts(res)
         ops += [self.arg_for(t) for t in args]
@@ -546,6 +656,15 @@ class FG:
             pi = c['ptrs'].get(i)
             if pi is not None:
                 need_size, need_w = pi
+                if t.startswith(('blk', 'rblk')):
+                    # the whole block must be initialised memory: use a harness buffer or a top alloca
+                    cands = [p for p in self.P if p.size >= need_size and (p.writable or t.startswith('blk'))
+                             and p.init]
+                    if not cands:
+                        return self.g_call_ext()
+                    ops.append(Mem(t, 0, r.choice(cands).reg))
+                    self.p.features.add('call:' + t.split(':')[0])
+                    continue
                 cands = [p for p in self.P if p.size >= need_size and (p.writable or not need_w)]
                 if not cands:
                     return self.g_call_ext()
@@ -571,7 +690,8 @@ class FG:
         ops = [Ref(s['proto']), Ref(self.f.name)] + self.res_dsts(self.f.res)
         for i, (t, rn) in enumerate(self.f.args):
             if rn == s['depth_reg']: ops.append(R(d))
-            elif i in s['ptrs']: ops.append(R(rn))
+            elif i in s['ptrs']:
+                ops.append(Mem(t, 0, rn) if t.startswith(('blk', 'rblk')) else R(rn))
             else: ops.append(self.arg_for(t))
         self.emit('call', *ops)
         self.place(lskip)
@@ -581,8 +701,10 @@ class FG:
         r = self.rng
         kinds = [(self.g_alu64, 14), (self.g_alu32, 12), (self.g_neg, 2), (self.g_ext, 6), (self.g_cmp, 7),
                  (self.g_shift, 7), (self.g_div, 7), (self.g_load, 8), (self.g_store, 9), (self.g_mov, 5),
-                 (self.g_ovf, 4), (self.g_local_alloca, 2), (self.g_call_ext, 3), (self.g_call_mir, 4),
-                 (self.g_self_call, 1)]
+                 (self.g_ovf, 4), (self.g_local_alloca, 2), (self.g_call_ext, 3),
+                 (self.g_call_mir, self.opts.get('w_call', 4)), (self.g_self_call, 1)]
+        if self.opts.get('fp', True) and self.FR:
+            kinds += [(self.g_farith, 8), (self.g_fcmp, 3), (self.g_fconv, 4), (self.g_fmov, 4), (self.g_fbranch, 2)]
         tot = sum(w for _, w in kinds)
         for _ in range(n):
             x = r.randrange(tot)
@@ -600,6 +722,26 @@ class FG:
         if self.O and self.rng.random() >= self.opts.get('p_constbr', 0.0):
             return R(self.rng.choice(self.O))
         return None
+
+    def g_fbranch(self):
+        r = self.rng
+        prec = r.choice(['f', 'd'])
+        op = prec + 'b' + r.choice(['eq', 'ne', 'lt', 'le', 'gt', 'ge'])
+        lt, lj = self.label(), self.label()
+        a, b = self.fsrc(prec, allow_mem=False), self.fsrc(prec, allow_mem=False)
+        if self.O and r.random() < 0.7:
+            # keep the comparison away from compile-time folding: one operand derived from an opaque reg
+            t = self.new_local('fo', prec)
+            self.emit('i2' + prec, R(t), R(r.choice(self.O)))
+            a = R(t)
+        self.emit(op, lt, a, b)
+        flag = self.X_()
+        self.emit('mov', flag, Imm(r.randrange(0, 100)))
+        self.emit('jmp', lj)
+        self.place(lt)
+        self.emit('mov', flag, Imm(r.randrange(100, 200)))
+        self.place(lj)
+        self.p.features.add('fp:branch')
 
     def cond_branch(self, target):
         r = self.rng
@@ -631,6 +773,8 @@ class FG:
         for t in self.f.res:
             if t in ('i64', 'u64'):
                 ops.append(self.X_() if r.random() < 0.85 else Imm(self.imm_val()))
+            elif t in ('f', 'd'):
+                ops.append(self.fsrc(t, allow_mem=False))
             else:
                 ops.append(self.src32(allow_mem=False))
         self.emit('ret', *ops)
@@ -646,6 +790,11 @@ class FG:
         for i in range(nw):
             n = 'w%d' % i; f.locals.append(('i64', n)); self.W.append(n)
         f.locals.append(('i64', 'fuel'))
+        if self.opts.get('fp', True):
+            for i in range(r.randrange(2, 5)):
+                n = 'fr%d' % i; f.locals.append(('f', n)); self.FR.append(n)
+            for i in range(r.randrange(2, 5)):
+                n = 'dr%d' % i; f.locals.append(('d', n)); self.DR.append(n)
         for rn, size, w in self.ptr_args:
             self.P.append(PtrInfo(rn, size, w))
         int_args = [rn for t, rn in f.args if t in INT_TYPES and rn not in [p[0] for p in self.ptr_args]
@@ -671,6 +820,16 @@ class FG:
                 self.emit('adds', R(wn), R(r.choice(int_args)), Imm(self.imm_val()))
             else:
                 self.emit('mov', R(wn), Imm(self.imm_val()))
+        fargs = [rn for t, rn in f.args if t == 'f']
+        dargs = [rn for t, rn in f.args if t == 'd']
+        for n in self.FR:
+            if fargs and r.random() < 0.5: self.emit('fmov', R(n), R(r.choice(fargs)))
+            elif int_args and r.random() < 0.3: self.emit('i2f', R(n), R(r.choice(int_args)))
+            else: self.emit('fmov', R(n), self.fimm('f'))
+        for n in self.DR:
+            if dargs and r.random() < 0.5: self.emit('dmov', R(n), R(r.choice(dargs)))
+            elif int_args and r.random() < 0.3: self.emit('i2d', R(n), R(r.choice(int_args)))
+            else: self.emit('dmov', R(n), self.fimm('d'))
         for i in range(r.randrange(1, 4)):
             on = 'o%d' % i
             f.locals.append(('i64', on))
@@ -785,17 +944,38 @@ def gen_program(rng, opts=None):
             ptrs = {0: (sizes[0], True), 1: (sizes[1], True), 2: (sizes[2], False)}
             selfinfo = None
         else:
-            nres = rng.choice([0, 1, 1, 1, 2, 2])
-            res = [rng.choice(INT_TYPES + ['i64', 'i64']) for _ in range(nres)]
+            fp = o.get('fp', True)
+            nres = rng.choice([0, 1, 1, 1, 2, 2, 3])
+            res, ni, nfp = [], 0, 0
+            for _ in range(nres):      # x86-64: at most two integer and two FP results
+                t = rng.choice(INT_TYPES + ['i64', 'i64'] + (['f', 'd', 'd'] if fp else []))
+                if t in ('f', 'd'):
+                    if nfp == 2: continue
+                    nfp += 1
+                else:
+                    if ni == 2: continue
+                    ni += 1
+                res.append(t)
             args = []
             ptrs = {}
             np_ = rng.choice([0, 1, 1, 2])
             for i in range(np_):
                 k = rng.randrange(3)
-                ptrs[len(args)] = (sizes[k], k != 2)
-                args.append((rng.choice(['i64', 'p']), 'b%d' % i))
+                kind = rng.random()
+                if kind < o.get('p_blk', 0.25):
+                    n = rng.choice([8, 16, 24, 32])
+                    n = min(n, sizes[k] // 8 * 8)
+                    if rng.random() < 0.7:
+                        ptrs[len(args)] = (n, True)
+                        args.append(('blk:%d' % n, 'b%d' % i))
+                    else:
+                        ptrs[len(args)] = (n, True)       # rblk: the callee works on the caller's memory
+                        args.append(('rblk:%d' % n, 'b%d' % i))
+                else:
+                    ptrs[len(args)] = (sizes[k], k != 2)
+                    args.append((rng.choice(['i64', 'p']), 'b%d' % i))
             for i in range(rng.randrange(0, 5)):
-                args.append((rng.choice(INT_TYPES + ['i64', 'i32']), 'a%d' % i))
+                args.append((rng.choice(INT_TYPES + ['i64', 'i32'] + (['f', 'd'] if fp else [])), 'a%d' % i))
             selfinfo = None
             if rng.random() < 0.35:
                 args.append(('i64', 'depth'))
@@ -819,6 +999,8 @@ def gen_program(rng, opts=None):
         n = f.ninsns()
         p.features.add('callee-size:' + ('<=50' if n <= 50 else '<=200' if n <= 200 else '>200'))
     p.entry = 'main'
+    p.forward_order = rng.random() < o.get('p_forward', 0.3)
+    if p.forward_order: p.features.add('order:main-first')
     main = p.items[p.index['main']][1]
     nint = len(main.args) - 3
     p.args = [REGION_BASE, REGION_BASE + 0x100000, REGION_BASE + 0x200000] + \
@@ -906,6 +1088,9 @@ def parse_text(text, args=None, oracle=None, regions=None):
                 for n in line[6:].split(','):
                     n = n.strip()
                     p.add_item(('import', n, extid[n]))
+                continue
+            if line.startswith('forward '):
+                p.forward_order = True   # only the order produced by Program.text is supported
                 continue
             if line == 'endfunc':
                 cur = None
